@@ -633,6 +633,20 @@ func (x *Exec) doInvoke(st *State, fr *frame, c *ssa.CallCommon, recv Val, args 
 		e.usedExterns["invoke:"+iname] = true
 		return h(x, st, fr, c, append([]Val{recv}, args...), pos)
 	}
+	if recv.Dyn != nil {
+		// the dynamic type is known on this path and its method is under contract: more precise than the interface contract
+		if fn := e.prog.LookupMethod(recv.Dyn, c.Method.Pkg(), c.Method.Name()); fn != nil {
+			if fct := e.contracts[e.shortName(fn)]; fct != nil && !fct.Inline && fn != x.root {
+				var rv Val
+				if recv.Payload != nil {
+					rv = *recv.Payload
+				} else {
+					rv = Val{T: e.unbox(recv.Dyn, "(i_ref "+recv.T+")"), Ty: recv.Dyn}
+				}
+				return x.callFunc(st, fr, fn, nil, append([]Val{rv}, args...), c, pos)
+			}
+		}
+	}
 	if ct := e.ifaceContracts[iname]; ct != nil {
 		return x.applyContract(st, fr, ct, c.Signature(), nil, append([]Val{recv}, args...), pos, iname)
 	}
